@@ -19,20 +19,7 @@ import (
 
 const pduTag = "valueExt,valueLB:0,valueUB:2"
 
-var transferTypes = []interface{}{
-	ngapType.HandoverCommandTransfer{}, ngapType.HandoverPreparationUnsuccessfulTransfer{},
-	ngapType.HandoverRequestAcknowledgeTransfer{}, ngapType.HandoverRequiredTransfer{},
-	ngapType.HandoverResourceAllocationUnsuccessfulTransfer{}, ngapType.PDUSessionResourceModifyConfirmTransfer{},
-	ngapType.PDUSessionResourceModifyIndicationTransfer{}, ngapType.PDUSessionResourceModifyIndicationUnsuccessfulTransfer{},
-	ngapType.PDUSessionResourceModifyRequestTransfer{}, ngapType.PDUSessionResourceModifyResponseTransfer{},
-	ngapType.PDUSessionResourceModifyUnsuccessfulTransfer{}, ngapType.PDUSessionResourceNotifyReleasedTransfer{},
-	ngapType.PDUSessionResourceNotifyTransfer{}, ngapType.PDUSessionResourceReleaseCommandTransfer{},
-	ngapType.PDUSessionResourceReleaseResponseTransfer{}, ngapType.PDUSessionResourceSetupRequestTransfer{},
-	ngapType.PDUSessionResourceSetupResponseTransfer{}, ngapType.PDUSessionResourceSetupUnsuccessfulTransfer{},
-	ngapType.PathSwitchRequestAcknowledgeTransfer{}, ngapType.PathSwitchRequestSetupFailedTransfer{},
-	ngapType.PathSwitchRequestTransfer{}, ngapType.PathSwitchRequestUnsuccessfulTransfer{},
-	ngapType.SourceNGRANNodeToTargetNGRANNodeTransparentContainer{}, ngapType.TargetNGRANNodeToSourceNGRANNodeTransparentContainer{},
-}
+var transferTypes = te.TransferTypes
 
 type rec struct {
 	w    *ev.Writer
